@@ -232,43 +232,72 @@ func runJob(ld *loaded, ph *PkgHarness, job Job) (res JobResult) {
 	return
 }
 
-// workerMain: zx worker <jobs.json> <outdir>; all jobs must share one package.
+// workerMain: zx worker --queue <dir> <outdir>: claims job files from the queue (all of one
+// package) until none is left.
 func workerMain(args []string) int {
 	runtime.GOMAXPROCS(2)
 	debug.SetGCPercent(400)
-	data, err := os.ReadFile(args[0])
-	if err != nil {
-		fmt.Fprintln(os.Stderr, err)
+	if len(args) != 3 || args[0] != "--queue" {
+		fmt.Fprintln(os.Stderr, "usage: zx worker --queue <dir> <outdir>")
 		return 2
 	}
-	var jobs []Job
-	if err := json.Unmarshal(data, &jobs); err != nil {
-		fmt.Fprintln(os.Stderr, err)
-		return 2
-	}
-	outdir := args[1]
+	qdir, outdir := args[1], args[2]
 	_, pkgs, err := discover()
 	if err != nil {
 		fmt.Fprintln(os.Stderr, err)
 		return 2
 	}
-	if len(jobs) == 0 {
-		return 0
-	}
-	ph := pkgs[jobs[0].H.Pkg]
-	t0 := time.Now()
-	ld, err := loadPkg(ph)
-	loadMs := time.Since(t0).Milliseconds()
-	for n, job := range jobs {
-		var res JobResult
+	var ld *loaded
+	var loadErr error
+	var loadMs int64
+	var ph *PkgHarness
+	for {
+		ents, err := os.ReadDir(qdir)
 		if err != nil {
-			res = JobResult{Job: job, Error: err.Error()}
+			fmt.Fprintln(os.Stderr, err)
+			return 2
+		}
+		claimed := ""
+		for _, e := range ents {
+			if !strings.HasPrefix(e.Name(), "job") || strings.Contains(e.Name(), ".") {
+				continue
+			}
+			src := filepath.Join(qdir, e.Name())
+			dst := src + fmt.Sprintf(".claimed%d", os.Getpid())
+			if os.Rename(src, dst) == nil {
+				claimed = dst
+				break
+			}
+		}
+		if claimed == "" {
+			return 0
+		}
+		data, err := os.ReadFile(claimed)
+		if err != nil {
+			fmt.Fprintln(os.Stderr, err)
+			return 2
+		}
+		var jobs []Job
+		if err := json.Unmarshal(data, &jobs); err != nil || len(jobs) != 1 {
+			fmt.Fprintln(os.Stderr, "bad job file", claimed, err)
+			return 2
+		}
+		job := jobs[0]
+		if ld == nil && loadErr == nil {
+			ph = pkgs[job.H.Pkg]
+			t0 := time.Now()
+			ld, loadErr = loadPkg(ph)
+			loadMs = time.Since(t0).Milliseconds()
+		}
+		var res JobResult
+		if loadErr != nil {
+			res = JobResult{Job: job, Error: loadErr.Error()}
 		} else {
 			res = runJob(ld, ph, job)
 		}
 		res.LoadMs = loadMs
 		out, _ := json.Marshal(res)
-		name := fmt.Sprintf("%s.%d.json", filepath.Base(args[0]), n)
+		name := filepath.Base(qdir) + "-" + strings.SplitN(filepath.Base(claimed), ".", 2)[0] + ".json"
 		if werr := os.WriteFile(filepath.Join(outdir, name), out, 0644); werr != nil {
 			fmt.Fprintln(os.Stderr, werr)
 			return 2
@@ -278,5 +307,4 @@ func workerMain(args []string) int {
 				job.H.ID, job.Preset, res.Paths, res.Asserts, res.Proved, len(res.Viol), len(res.Inconcl), res.SolverCalls, res.SolverMs, res.WallMs, res.Error)
 		}
 	}
-	return 0
 }
